@@ -7,7 +7,7 @@ from ..refs import vtimezone as R5
 ID = "C13"
 RULE = ("zone ids of the active provider (quick: a seeded sample per shard + sentinels Africa/Cairo, Africa/Casablanca, Africa/El_Aaiun, Pacific/Apia, Australia/Lord_Howe, "
         "Europe/Dublin, Antarctica/Troll, Asia/Kolkata, UTC, Africa/Algiers, America/Argentina/Buenos_Aires, Asia/Jerusalem; thorough: all ids) x provider "
-        "{zoneinfo, pytz} x window {default 1970-2038, seeded sub-windows of 1-30 years, windows starting/ending on a transition day}. For each generated "
+        "{zoneinfo, pytz} (also: the zone taken from one provider through from_tzid's tzp argument while the other one is active library-wide) x window {default 1970-2038, seeded sub-windows of 1-30 years, windows starting/ending on a transition day}. For each generated "
         "component: well-formedness (TZID, >=1 observance, DTSTART/TZOFFSETFROM/TZOFFSETTO/TZNAME, onsets inside the window); the transition table of the "
         "source zone (pytz's own table / daily scan + bisection on zoneinfo's own utcoffset, tzname, dst) is aligned with the table the RFC 5545 reading (R5) "
         "of the component gives; then offset and abbreviation of R5(component) and of component.to_tz() are compared with the source at every transition "
@@ -43,6 +43,10 @@ def run(ctx):
             ctx.check(("zone", prov, z, (1970, 1, 1), (2038, 1, 1)), "default-window")
             y = rng.randrange(1970, 2030)
             ctx.check(("zone", prov, z, (y, rng.randrange(1, 13), rng.randrange(1, 29)), (min(2037, y + rng.randrange(1, 31)), rng.randrange(1, 13), rng.randrange(1, 29))), "sub-windows")
+            other = "zoneinfo" if prov == "pytz" else "pytz"
+            if z in zone_ids(other) and (not ctx.quick or rng.randrange(2)):
+                y = rng.randrange(1970, 2030)
+                ctx.check(("zone", prov, z, (y, rng.randrange(1, 13), rng.randrange(1, 29)), (min(2037, y + rng.randrange(1, 31)), rng.randrange(1, 13), rng.randrange(1, 29)), other), "mixed-providers")
     ctx.exhaustive["all zone ids x providers, default window"] = not ctx.quick
 
 
@@ -246,13 +250,23 @@ def gen_state(tl, p):
 def check_case(ctx, case):
     import icalendar
     from icalendar.timezone import tzp
-    _, prov, z, first, last = case
+    _, prov, z, first, last = case[:5]
+    # the provider the zone is taken from (from_tzid's own tzp argument) need not be the one that is active library-wide
+    src_prov = case[5] if len(case) > 5 else prov
     (icalendar.use_pytz if prov == "pytz" else icalendar.use_zoneinfo)()
     if date(*last) <= date(*first):
         return
-    tz = zone_object(prov, z)
+    conv_prov = prov
+    mixed = src_prov != prov
+    tz = zone_object(src_prov, z)
+    prov = src_prov             # everything below that speaks about the *source* zone and the generator's arithmetic on it
     try:
-        comp = icalendar.Timezone.from_tzid(z, tzp, date(*first), date(*last))
+        if mixed:
+            from icalendar.timezone.tzp import TZP
+            comp = icalendar.Timezone.from_tzid(z, TZP(src_prov), date(*first), date(*last))
+            ctx.count("mixed-provider-cases")
+        else:
+            comp = icalendar.Timezone.from_tzid(z, tzp, date(*first), date(*last))
     except Exception as e:
         ctx.fail("from_tzid-raises", observed=f"{type(e).__name__}: {e}"[:200], expected="a VTIMEZONE")
         return
@@ -304,7 +318,7 @@ def check_case(ctx, case):
         conv, conv_err = None, e
     if conv is None:
         big = [o for o in r5def if abs(o["to"] - o["from"]) >= 86400]
-        key = "apia-dateline" if (isinstance(conv_err, ValueError) and big and prov == "zoneinfo") else None
+        key = "apia-dateline" if (isinstance(conv_err, ValueError) and big and conv_prov == "zoneinfo") else None
         ctx.fail("to_tz-raises", observed=f"{type(conv_err).__name__}: {conv_err}"[:200], expected="a tzinfo", key=key)
     for p in sorted(instants):
         p = p.replace(microsecond=0)
@@ -337,7 +351,7 @@ def check_case(ctx, case):
                 continue
             if cs[0] != want[0] or cs[1] != want[1]:
                 key = None
-                if prov == "zoneinfo":
+                if conv_prov == "zoneinfo":
                     from .. import defects
                     try:
                         pred = defects.tzical_model(r5def, p)
@@ -349,7 +363,9 @@ def check_case(ctx, case):
                 if key is None:
                     return
     # ---- regeneration
-    if conv is not None:
+    if mixed:
+        ctx.count("regeneration-skipped:mixed-providers")       # the converted zone is of the other provider's kind: "the same component" is not defined by the statement
+    elif conv is not None:
         try:
             again = icalendar.Timezone.from_tzinfo(conv, z, date(*first), date(*last))
         except Exception as e:
@@ -365,7 +381,7 @@ def check_case(ctx, case):
 
 def inconclusive(m, tier):
     c = m["counters"]
-    out = [f"monitor counter {k} is zero" for k in ("zones-aligned", "instants-equal", "source-transitions") if not c.get(k)]
+    out = [f"monitor counter {k} is zero" for k in ("zones-aligned", "instants-equal", "source-transitions", "mixed-provider-cases") if not c.get(k)]
     return out
 
 
